@@ -16,7 +16,7 @@ RULE = ("instants (year 1, pre-1970, epoch, Avro's 2**32 us guard, leap day, 203
         "kinds (naive, UTC, ZoneInfo UTC, fixed offsets incl. seconds, 3 IANA zones with fold 0/1) x input forms (object, ISO text T / "
         "space / Z / +HHMM, bytes, epoch int/float) x storage formats (stream, JSON, SQLite, Avro), executed in 18 worker processes "
         "(FLOW_RECORD_TZ x TZ); instants are computed independently from the input's own utcoffset(); bytes written and values read "
-        "are compared across all environments. non-trivial = value accepted by the field type")
+        "are compared across all environments; plus all values through ONE writer per format in both orders, and every ordered pair of values sharing a ZoneInfo object through one stream writer / JSON packer. non-trivial = value accepted by the field type")
 
 INSTANTS = [
     (1, 1, 1, 0, 0, 0, 0), (1, 1, 1, 23, 59, 59, 999999), (1969, 12, 31, 23, 59, 59, 999999), (1970, 1, 1, 0, 0, 0, 0), (1970, 1, 1, 0, 0, 0, 1),
@@ -25,7 +25,7 @@ INSTANTS = [
     (1969, 12, 31, 23, 59, 58, 500000), (1950, 6, 1, 0, 0, 0, 250000), (1970, 1, 1, 0, 0, 1, 750000), (1901, 12, 13, 20, 45, 51, 500000),
 ]
 ZONES = ["None", "UTC", "Z('UTC')", "off(5,30)", "off(5,neg=True)", "off(14)", "off(12,neg=True)", "off(1,2,3)", "off(0,19,32,neg=True)",
-         "Z('Europe/Amsterdam')", "Z('America/New_York')", "Z('Australia/Lord_Howe')"]
+         "Z('Europe/Amsterdam')", "Z('America/New_York')", "Z('Australia/Lord_Howe')", "Z('Europe/London')"]
 ENVS = [(tz, ostz) for tz in (None, "UTC", "NONE", "Europe/Amsterdam", "America/New_York", "Bogus/Zone") for ostz in (None, "UTC", "Asia/Tokyo")]
 
 
@@ -231,6 +231,143 @@ def worker():
                 if os.path.exists(path):
                     os.unlink(path)
             print(json.dumps(res))
+    # (d) ONE writer per format receives ALL values, in both orders: what a writer remembers about one timestamp (its tzinfo
+    #     object, its offset) meets every other timestamp of the same zone at another time of the year
+    vals = []
+    for spec in value_specs(seed):
+        try:
+            vals.append((spec, ft.datetime(lit.ev(spec))))
+        except Exception:  # noqa: BLE001
+            pass
+    for order in ("fwd", "rev"):
+        seq = vals if order == "fwd" else vals[::-1]
+        recs_ = [desc(ts=x, _generated=gen) for _, x in seq]
+
+        def judge_seq(fmt, got, keep, same_offset=True):
+            res = {"spec": "seq:" + order, "form": fmt, "viol": [], "h": {}}
+            want = [seq[i] for i in keep]
+            if len(got) != len(want):
+                res["viol"].append(["%s:sequence:count" % fmt, {"read": len(got), "written": len(want)}])
+            for (spec, x), g in zip(want, got):
+                if g is None or g.tzinfo is None:
+                    res["viol"].append(["%s:sequence:naive-or-missing" % fmt, {"spec": spec}])
+                elif independent_instant(g) != independent_instant(x):
+                    res["viol"].append(["%s:sequence:instant-differs" % fmt, {"spec": spec, "written": wall(x) + [offs(x)], "read": wall(g) + [offs(g)]}])
+                elif same_offset and offs(g) != offs(x):
+                    res["viol"].append(["%s:sequence:offset-differs" % fmt, {"spec": spec, "written": offs(x), "read": offs(g)}])
+            seen = set()
+            res["viol"] = [v for v in res["viol"] if not (v[0] in seen or seen.add(v[0]))]
+            print(json.dumps(res))
+
+        n += 1
+        try:
+            buf = io.BytesIO()
+            w = RecordStreamWriter(buf)
+            for r in recs_:
+                w.write(r)
+            w.flush()
+            w.fp = None
+            judge_seq("stream", [r.ts for r in RecordStreamReader(io.BytesIO(buf.getvalue()))], range(len(seq)))
+        except Exception as e:  # noqa: BLE001
+            print(json.dumps({"spec": "seq:" + order, "form": "stream", "viol": [["stream:sequence:raises-%s" % type(e).__name__, {"error": repr(e)[:120]}]], "h": {}}))
+        try:
+            p = JsonRecordPacker()
+            lines = []
+            p.on_descriptor.add_handler(lambda dsc: lines.append(p.pack(dsc)))
+            for r in recs_:
+                lines.append(p.pack(r))
+            q = JsonRecordPacker()
+            got = [o.ts for o in (q.unpack(ln) for ln in lines) if hasattr(o, "ts")]
+            judge_seq("json", got, range(len(seq)))
+        except Exception as e:  # noqa: BLE001
+            print(json.dumps({"spec": "seq:" + order, "form": "json", "viol": [["json:sequence:raises-%s" % type(e).__name__, {"error": repr(e)[:120]}]], "h": {}}))
+        path = os.path.join(scratch, "c13-seq-%d.sqlite" % os.getpid())
+        try:
+            w = RecordWriter("sqlite://" + path)
+            for r in recs_:
+                w.write(r)
+            w.flush()
+            w.close()
+            rd = RecordReader("sqlite://" + path)
+            judge_seq("sqlite", [r.ts for r in rd], range(len(seq)))
+        except Exception as e:  # noqa: BLE001
+            print(json.dumps({"spec": "seq:" + order, "form": "sqlite", "viol": [["sqlite:sequence:raises-%s" % type(e).__name__, {"error": repr(e)[:120]}]], "h": {}}))
+        finally:
+            if os.path.exists(path):
+                os.unlink(path)
+        path = os.path.join(scratch, "c13-seq-%d.avro" % os.getpid())
+        try:
+            keep = []
+            for i, (_, x) in enumerate(seq):
+                try:
+                    x.astimezone(_d.timezone.utc)
+                    keep.append(i)
+                except OverflowError:
+                    pass
+            w = RecordWriter(path)
+            for i in keep:
+                w.write(recs_[i])
+            w.flush()
+            w.close()
+            rd = RecordReader(path)
+            got = [r.ts for r in rd]
+            rd.close()
+            judge_seq("avro", got, keep, same_offset=False)
+        except Exception as e:  # noqa: BLE001
+            print(json.dumps({"spec": "seq:" + order, "form": "avro", "viol": [["avro:sequence:raises-%s" % type(e).__name__, {"error": repr(e)[:120]}]], "h": {}}))
+        finally:
+            if os.path.exists(path):
+                os.unlink(path)
+    # (e) every ORDERED PAIR of values that share a tzinfo object, through one stream writer / one JSON packer
+    byzone = {}
+    for spec, x in vals:
+        if spec.split("tz=")[1].startswith("Z('"):
+            byzone.setdefault(spec.split("tz=")[1].split(",fold")[0], []).append((spec, x))
+    for zone, zvals in sorted(byzone.items()):
+        for fmt in ("stream", "json"):
+            res = {"spec": "pairs:" + zone, "form": fmt, "viol": [], "h": {}}
+            bad = set()
+            for sa, a in zvals:
+                ra = desc(ts=a, _generated=gen)
+                for sb, b in zvals:
+                    n += 1
+                    rb = desc(ts=b, _generated=gen)
+                    try:
+                        if fmt == "stream":
+                            buf = io.BytesIO()
+                            w = RecordStreamWriter(buf)
+                            w.write(ra)
+                            w.write(rb)
+                            w.flush()
+                            w.fp = None
+                            got = [r.ts for r in RecordStreamReader(io.BytesIO(buf.getvalue()))]
+                        else:
+                            p = JsonRecordPacker()
+                            lines = []
+                            p.on_descriptor.add_handler(lambda dsc: lines.append(p.pack(dsc)))
+                            lines += [p.pack(ra), p.pack(rb)]
+                            q = JsonRecordPacker()
+                            got = [o.ts for o in (q.unpack(ln) for ln in lines) if hasattr(o, "ts")]
+                    except Exception as e:  # noqa: BLE001
+                        sig = "%s:pair:raises-%s" % (fmt, type(e).__name__)
+                        if sig not in bad:
+                            bad.add(sig)
+                            res["viol"].append([sig, {"first": sa, "second": sb}])
+                        continue
+                    for (sx, x), g in zip(((sa, a), (sb, b)), got + [None] * (2 - len(got))):
+                        if g is None or g.tzinfo is None:
+                            sig = "%s:pair:naive-or-missing" % fmt
+                        elif independent_instant(g) != independent_instant(x):
+                            sig = "%s:pair:instant-differs" % fmt
+                        elif offs(g) != offs(x):
+                            sig = "%s:pair:offset-differs" % fmt
+                        else:
+                            continue
+                        if sig not in bad:
+                            bad.add(sig)
+                            res["viol"].append([sig, {"first": sa, "second": sb, "wrong": sx, "read": repr(g)}])
+            res["pairs"] = len(zvals) ** 2
+            print(json.dumps(res))
     print(json.dumps({"done": n}))
 
 
@@ -273,7 +410,7 @@ def main(tier, seed, workers=None):
             case = {"spec": r["spec"], "form": r["form"], "env": {"FLOW_RECORD_TZ": envkey[0], "TZ": envkey[1]}}
             key = (r["spec"], r["form"])
             viol = [("C13:%s" % v[0], case, v[1]) for v in r["viol"]]
-            run.add_result({"ev": 1, "h": jhash([key, envkey]), "nt": "rejected" not in r, "out": "%s:%s" % (r["form"], "rejected" if "rejected" in r else ("ok" if not viol else "viol")),
+            run.add_result({"ev": r.get("pairs", 1), "h": jhash([key, envkey]), "nt": "rejected" not in r, "out": "%s:%s" % (r["form"], "rejected" if "rejected" in r else ("ok" if not viol else "viol")),
                             "viol": viol})
             per_case.setdefault(key, {})[envkey] = (r.get("rejected"), r["h"])
             if len(run.samples) < 4 and jhash(key)[0] == "0":
